@@ -14,7 +14,8 @@ EXPLANATION = (
     "space (the original bytes) and the original length; an RLE block is emitted only under the all-bytes-equal "
     "test, with the first byte and the original length; (block size) the built-in matcher is constructed with a "
     "slice size that const-evaluates to MAX_BLOCK_SIZE and one slice, get_next_space hands out that size, a raw "
-    "block's size is the number of bytes read into it; (last block) shared with C02's block-loop rule; (window) the "
+    "block's size is the number of bytes read into it; (last block) shared with C02's block-loop rule; (self-contained frames) compressor state is reset per frame and a "
+    "Huffman table is remembered only if transmitted (shared with C02.cover.frame-reset / C02.pair.huffman-commit); (window) the "
     "frame header's window comes from Matcher::window_size() and is rounded up (C14 writer rule), for the built-in "
     "matcher that is the eviction bound (C17); (literals) compress_literals falls back to raw literals when the "
     "Huffman section is not smaller, and the literals header it writes picks the size format by length with the "
@@ -191,6 +192,11 @@ def run(ctx):
         for o in ctx.obs[start:]:
             if o.rule == "C02.pair.block-loop":
                 o.rule = "C15.flow.last-block"
+                keep.append(o)
+            elif o.rule in ("C02.cover.frame-reset", "C02.pair.huffman-commit"):
+                # a frame is well-formed only if it refers to nothing a previous frame (or a discarded block) defined:
+                # per-frame reset of the compressor state and the remembered-table discipline
+                o.rule = "C15.flow." + o.rule.split(".", 2)[2]
                 keep.append(o)
         ctx.obs[start:] = keep
         cb = ctx.hir(FC + "::compress")
